@@ -209,4 +209,38 @@ def hlrunC : Nat → HLCState → HLCState
 def HLCState.origins (c : HLCState) : List (List String) :=
   c.log.reverse ++ regionNames c.l.h.active c.l.h.rest
 
+/-! ### the blank-rule flag at every character, by hand
+
+  `Lexer::is_after_blank_ending_alias(i)` can be asked at every index `i` of the buffer, not only where the parser
+  asks.  By hand the answer is the flag `tb` BEFORE character `i` is read.  An observer like the origin log: it does
+  not influence `hstep`. -/
+
+/-- the flag before each of the characters read -/
+def flagsBefore (rs : List Region) : Bool → List (Char × Bool) → Nat → List Bool
+  | _, [], _ => []
+  | b, (c, lc) :: t, rem =>
+    b :: flagsBefore rs (if lc then b else if isBlank c then b || endsValue rs rem else false) t (rem - 1)
+
+/-- flags before the characters that the step `hstep T s` reads (skipped blanks, then the token if it is taken) -/
+def hstepBits (T : Table) (s : HState) : List Bool :=
+  let k := skipLenC s.rest
+  let sk := flagsBefore s.active s.tb (markC (s.rest.take k)) s.rest.length
+  match s.rest.drop k with
+  | [] => sk
+  | c0 :: tl =>
+    match hcand T s with
+    | some _ => sk
+    | none =>
+      let blank := flagRun s.active true k s.tb s.rest
+      let m := spanLenC s.hd s.st (c0 :: tl)
+      sk ++ flagsBefore s.active blank (((c0 :: tl).take (m + 1)).map (·, false)) (c0 :: tl).length
+
+/-- the by-hand line machine with the flag log; at the end of input the remaining blanks / comment are read too -/
+def hlrunB : Nat → HLState → List Bool → List Bool
+  | 0, _, acc => acc
+  | f + 1, l, acc =>
+    match hlstep l with
+    | none => acc ++ hstepBits l.T l.h
+    | some l' => hlrunB f l' (acc ++ hstepBits l.T l.h)
+
 end YashModel.Alias
